@@ -531,6 +531,30 @@ theorem exact_solver_agrees (ops : List Cqm.Op) (hops : ∀ op ∈ ops, CqmP.OpO
         have hwf : CqmP.CqmWF m := CqmP.run_wf ops CqmP.cqmWF_empty hops
         rw [evalCons_eq_def hwf, vec_isSatisfied]
 
+/-- **The source's own branch tables are the definition** (tie to the code: `Generated/FeasTable.lean` is rewritten from the
+    source on every run by `harness/translators/c08_feas_table.py`).  The `if sense is Sense.X: violation = …` chains of
+    `iter_constraint_data` and of `from_samples_cqm` both compute the definition's `violation` for every sense (no sense falls
+    through to `RuntimeError`); `check_feasible`, `from_samples_cqm` and `ExactCQMSolver.sample_cqm` have the same default
+    tolerances, the binary64 values of `1e-6` and `1e-8` (each within 2⁻⁵² relative of the decimal); both satisfaction tests are
+    `violation <= atol + rtol*abs(rhs)`; `skip_satisfied` keeps `violation > 0`; the penalty names are `linear` (violation) and
+    `quadratic` (violation²).  Any change of one of these in the source changes the generated file and breaks this theorem. -/
+theorem generated_tables_are_the_definition (c : CEval) (r : Nat) :
+    violationByTable Generated.FeasTable.perSample c r = some (violation c r)
+    ∧ violationByTable Generated.FeasTable.vectorised c r = some (violation c r)
+    ∧ (∀ p ∈ Generated.FeasTable.defaults, p.2 = (defaultRtol, defaultAtol))
+    ∧ Generated.FeasTable.defaults.map (·.1) = ["check_feasible", "from_samples_cqm", "ExactCQMSolver.sample_cqm"]
+    ∧ |defaultRtol - 1 / 1000000| ≤ 1 / 1000000 / 2 ^ 52 ∧ |defaultAtol - 1 / 100000000| ≤ 1 / 100000000 / 2 ^ 52
+    ∧ Generated.FeasTable.satTest = [("check_feasible", "LtE", "atol+rtol*abs(rhs)"), ("from_samples_cqm", "LtE", "atol+rtol*abs(rhs)")]
+    ∧ Generated.FeasTable.skipOp = "Gt"
+    ∧ Generated.FeasTable.penalties = [("linear", 1), ("quadratic", 2)] := by
+  refine ⟨?_, ?_, by decide +kernel, by decide +kernel, ?_, ?_, by decide +kernel, by decide +kernel, by decide +kernel⟩
+  · unfold violationByTable violation
+    cases h : c.sense <;> simp [Generated.FeasTable.perSample, senseName, evalForm]
+  · unfold violationByTable violation
+    cases h : c.sense <;> simp [Generated.FeasTable.vectorised, senseName, evalForm]
+  · unfold defaultRtol; rw [abs_le]; constructor <;> norm_num
+  · unfold defaultAtol; rw [abs_le]; constructor <;> norm_num
+
 /-- row 1 of `demo` (`soft` x+y<=1 met, `hard` x−y>=0 violated by 1): nothing soft is violated, the one hard constraint is
     listed by `skip_satisfied`, `check_feasible` is False at tolerance 0 and True at `atol = 1`; the float test with an exact
     `fl` is the rational one; a 2-variable one-hot row satisfies its discrete constraint -/
